@@ -413,6 +413,47 @@ def make_run_script(rng, name, kind=None, switch_rule=None):
     return f"=== {name} plan={plan} nkeys={n + 6}\n" + "\n".join(g.lines) + "\n"
 
 
+def make_window_script(rng, name, kind=None):
+    """C05: a table built LAWFULLY with consecutive positions up to exact capacity (EMPTY bytes only at
+    the end), tombstones from removals, then the hasher turns inconsistent *inside a window of
+    positions around the EMPTY bytes*: a new key inserted through the entry path (RawTable::insert:
+    slot search, reserve(1) = in-place rehash, slot search AGAIN) is first offered an EMPTY slot, and the
+    in-place rehash then moves stored elements into exactly those slots."""
+    kind = kind or rng.choice(["map-drop", "map-drop", "map-plain"])
+    n = rng.choice([28, 28, 56, 14])
+    g = Gen(rng, n + 12, "seq", kind)
+    g.resync = False
+    g.many = False
+    g.forget = False
+    g.header()
+    for k in range(n):
+        g.op_insert(k)
+    keep_top = rng.choice([2, 4, 4, 6])
+    lo = list(range(n - keep_top))
+    victims = rng.sample(lo, rng.randrange(n // 2 + 1, len(lo) + 1)) if len(lo) > n // 2 + 1 else lo
+    for k in victims:
+        g.op_remove(k)
+    base = max(0, n - keep_top - rng.choice([0, 0, 2, 4]))
+    g.emit(f"hashrule calldep_win:{base}:{rng.choice([4, 8, 8, 12])}")
+    for _ in range(rng.choice([2, 4, 8])):
+        k = g.absent()
+        if k is None:
+            break
+        c = rng.choice(["entry_or_insert", "entry_or_insert", "tryinsert", "entry_insert", "entry_and_modify", "insert"])
+        st, v = g.st(), g.val()
+        if c == "entry_and_modify":
+            g.emit(f"{c} {k} {st} 1 {v}")
+        elif c == "insert":
+            g.op_insert(k)
+        else:
+            g.emit(f"{c} {k} {st} {v}")
+        g.contents[k] = (st, v)
+        g.emit(rng.choice(["iter", "len", "iterfold 0"]))
+    g.emit("iter")
+    g.emit("drain 0" if rng.random() < 0.3 else "len")
+    return f"=== {name} plan=seq nkeys={n + 12}\n" + "\n".join(g.lines) + "\n"
+
+
 def make_sparse_script(rng, name, kind=None):
     """Large, sparsely filled tables (whole groups EMPTY between occupied ones, first / last bucket
     occupied or not) with every iterator flavour: next-only, fold after a prefix, clone, owning."""
